@@ -11,6 +11,7 @@ import (
 	"go/ast"
 	"go/token"
 	"go/types"
+	"strconv"
 	"strings"
 )
 
@@ -141,61 +142,230 @@ func c05a(c *Ctx, r *Report) {
 		r.Undecided(clause, "R3 LOCKSTEP", f.Name+"/trim", c.pos(f.Decl.Pos()), "PackTable does not end in `return <payload>, <offsets>, <check>` of three local slices")
 		return
 	}
-	// trim loops: for-loops re-slicing the payload
-	found := false
+	// every place that drops leading slots: `ACT = ACT[e:]`, `CHK = CHK[e:]`, `for j … { OFF[j] -= e }` must come as a
+	// triple in one block (same guards, same iteration) with the same amount e — whether e is the constant 1 inside
+	// a loop or a counted number of leading slots after it
+	pm := parentMap(f.Decl.Body)
+	type move struct {
+		amt map[string]string // role -> canonical amount
+		pos token.Pos
+	}
+	moves := map[*ast.BlockStmt]*move{}
+	var order []*ast.BlockStmt
+	get := func(n ast.Node) *move {
+		blk, _ := pm[n].(*ast.BlockStmt)
+		if blk == nil {
+			return nil
+		}
+		if moves[blk] == nil {
+			moves[blk] = &move{amt: map[string]string{}, pos: n.Pos()}
+			order = append(order, blk)
+		}
+		return moves[blk]
+	}
+	amount := func(e ast.Expr) string {
+		if cv, ok := constInt(info, e); ok {
+			return fmt.Sprint(cv)
+		}
+		return exprString(e)
+	}
+	reslice := func(as *ast.AssignStmt, role string) (string, bool) {
+		if len(as.Lhs) != 1 || len(as.Rhs) != 1 || as.Tok != token.ASSIGN || identObj(info, as.Lhs[0]) != roles[role] {
+			return "", false
+		}
+		se, ok := unparen(as.Rhs[0]).(*ast.SliceExpr)
+		if !ok || identObj(info, se.X) != roles[role] || se.Low == nil {
+			return "", false
+		}
+		if se.High != nil {
+			return "?(upper bound)", true
+		}
+		return amount(se.Low), true
+	}
 	ast.Inspect(f.Decl.Body, func(n ast.Node) bool {
-		fs, ok := n.(*ast.ForStmt)
-		if !ok {
-			return true
-		}
-		var step int64
-		var stepStmt ast.Stmt
-		for _, s := range fs.Body.List {
-			if as, ok := s.(*ast.AssignStmt); ok && len(as.Lhs) == 1 && len(as.Rhs) == 1 && identObj(info, as.Lhs[0]) == roles["ACT"] {
-				if se, ok := as.Rhs[0].(*ast.SliceExpr); ok && identObj(info, se.X) == roles["ACT"] && se.High == nil && se.Low != nil {
-					if cv, ok := constInt(info, se.Low); ok {
-						step, stepStmt = cv, s
+		switch x := n.(type) {
+		case *ast.AssignStmt:
+			for _, role := range []string{"ACT", "CHK"} {
+				if a, ok := reslice(x, role); ok {
+					if m := get(x); m != nil {
+						if prev, dup := m.amt[role]; dup {
+							a = prev + "+" + a
+						}
+						m.amt[role] = a
 					}
 				}
 			}
-		}
-		if stepStmt == nil {
-			return true
-		}
-		found = true
-		chkOK, offOK := false, false
-		for _, s := range fs.Body.List {
-			if as, ok := s.(*ast.AssignStmt); ok && len(as.Lhs) == 1 && len(as.Rhs) == 1 && identObj(info, as.Lhs[0]) == roles["CHK"] {
-				if se, ok := as.Rhs[0].(*ast.SliceExpr); ok && identObj(info, se.X) == roles["CHK"] && se.High == nil && se.Low != nil {
-					if cv, ok := constInt(info, se.Low); ok && cv == step {
-						chkOK = true
+		case *ast.ForStmt, *ast.RangeStmt:
+			full, body, idx := fullRangeLoop(info, x.(ast.Stmt))
+			if full == nil || identObj(info, full) != roles["OFF"] || len(body.List) != 1 {
+				return true
+			}
+			a := ""
+			switch st := body.List[0].(type) {
+			case *ast.IncDecStmt:
+				if ix, ok := st.X.(*ast.IndexExpr); ok && st.Tok == token.DEC && identObj(info, ix.X) == roles["OFF"] && identObj(info, ix.Index) == idx {
+					a = "1"
+				}
+			case *ast.AssignStmt:
+				if len(st.Lhs) == 1 && st.Tok == token.SUB_ASSIGN {
+					if ix, ok := st.Lhs[0].(*ast.IndexExpr); ok && identObj(info, ix.X) == roles["OFF"] && identObj(info, ix.Index) == idx {
+						a = amount(st.Rhs[0])
 					}
 				}
 			}
-			if full, body, idx := fullRangeLoop(info, s); full != nil && identObj(info, full) == roles["OFF"] && len(body.List) == 1 {
-				switch st := body.List[0].(type) {
-				case *ast.IncDecStmt:
-					if ix, ok := st.X.(*ast.IndexExpr); ok && st.Tok == token.DEC && step == 1 && identObj(info, ix.X) == roles["OFF"] && identObj(info, ix.Index) == idx {
-						offOK = true
+			if a != "" {
+				if m := get(x); m != nil {
+					if prev, dup := m.amt["OFF"]; dup {
+						a = prev + "+" + a
 					}
+					m.amt["OFF"] = a
+				}
+			}
+		}
+		return true
+	})
+	for _, blk := range order {
+		m := moves[blk]
+		a, ch, off := m.amt["ACT"], m.amt["CHK"], m.amt["OFF"]
+		ok := a != "" && a == ch && a == off && !strings.HasPrefix(a, "?")
+		// a non-constant amount must not change between the three statements
+		if ok {
+			if _, err := strconv.Atoi(a); err != nil {
+				for _, st := range blk.List {
+					ast.Inspect(st, func(n ast.Node) bool {
+						switch y := n.(type) {
+						case *ast.AssignStmt:
+							for _, l := range y.Lhs {
+								if exprString(l) == a {
+									ok = false
+								}
+							}
+						case *ast.IncDecStmt:
+							if exprString(y.X) == a {
+								ok = false
+							}
+						}
+						return true
+					})
+				}
+			}
+		}
+		r.Check(ok, clause, "R3 LOCKSTEP", f.Name+"/trim-moves-payload-check-offsets-together", c.pos(m.pos),
+			fmt.Sprintf("dropping %s leading slot(s): payload, check vector and every row offset move by the same amount, under the same guards", a),
+			fmt.Sprintf("leading slots are dropped unevenly: payload re-sliced by %q, check vector by %q, row offsets lowered by %q (in one block they must all be the same amount): packed lookups would read shifted slots", a, ch, off))
+	}
+	// every dropped slot was tested empty: either the drop of c slots sits in a loop whose condition tests
+	// ACT[0..c-1] == 0, or the amount is a counter that a preceding loop advances by one per tested slot ACT[n] == 0
+	isEmptyTest := func(e ast.Expr, index string) bool {
+		be, ok := unparen(e).(*ast.BinaryExpr)
+		if !ok || be.Op != token.EQL {
+			return false
+		}
+		for _, pair := range [][2]ast.Expr{{be.X, be.Y}, {be.Y, be.X}} {
+			ix, ok := unparen(pair[0]).(*ast.IndexExpr)
+			if !ok || identObj(info, ix.X) != roles["ACT"] || amount(ix.Index) != index {
+				continue
+			}
+			if cv, ok := constInt(info, pair[1]); ok && cv == 0 {
+				return true
+			}
+		}
+		return false
+	}
+	for _, blk := range order {
+		m := moves[blk]
+		a := m.amt["ACT"]
+		if a == "" || strings.HasPrefix(a, "?") {
+			continue // reported by the lockstep obligation
+		}
+		why := ""
+		if cnt, err := strconv.Atoi(a); err == nil {
+			fs, _ := pm[blk].(*ast.ForStmt)
+			if fs == nil || fs.Cond == nil {
+				why = fmt.Sprintf("%d slot(s) are dropped outside a loop whose condition tests them", cnt)
+			} else {
+				for k := 0; k < cnt; k++ {
+					tested := false
+					for _, cj := range flattenAnd(fs.Cond) {
+						if isEmptyTest(cj, fmt.Sprint(k)) {
+							tested = true
+						}
+					}
+					if !tested {
+						why = fmt.Sprintf("slot %d is dropped without the loop condition testing it for 0", k)
+					}
+				}
+			}
+		} else {
+			// counter form
+			defs, incs, others := 0, 0, 0
+			var incLoop *ast.ForStmt
+			ast.Inspect(f.Decl.Body, func(n ast.Node) bool {
+				switch y := n.(type) {
 				case *ast.AssignStmt:
-					if len(st.Lhs) == 1 && st.Tok == token.SUB_ASSIGN {
-						if ix, ok := st.Lhs[0].(*ast.IndexExpr); ok && identObj(info, ix.X) == roles["OFF"] && identObj(info, ix.Index) == idx {
-							if cv, ok := constInt(info, st.Rhs[0]); ok && cv == step {
-								offOK = true
+					for i, l := range y.Lhs {
+						if exprString(l) != a {
+							continue
+						}
+						if len(y.Lhs) == len(y.Rhs) && (y.Tok == token.DEFINE || y.Tok == token.ASSIGN) {
+							if cv, ok := constInt(info, y.Rhs[i]); ok && cv == 0 {
+								defs++
+								continue
+							}
+						}
+						others++
+					}
+				case *ast.ValueSpec:
+					for i, nm := range y.Names {
+						if nm.Name == a {
+							if i >= len(y.Values) {
+								defs++
+							} else if cv, ok := constInt(info, y.Values[i]); ok && cv == 0 {
+								defs++
+							} else {
+								others++
 							}
 						}
 					}
+				case *ast.IncDecStmt:
+					if exprString(y.X) == a {
+						if y.Tok == token.INC {
+							incs++
+							if b, ok := pm[y].(*ast.BlockStmt); ok && len(b.List) == 1 {
+								incLoop, _ = pm[b].(*ast.ForStmt)
+							}
+						} else {
+							others++
+						}
+					}
+				}
+				return true
+			})
+			switch {
+			case defs != 1 || incs != 1 || others != 0:
+				why = fmt.Sprintf("the amount %s is not a counter with one zero definition and one increment (%d definitions, %d increments, %d other writes)", a, defs, incs, others)
+			case incLoop == nil || incLoop.Cond == nil || incLoop.Init != nil || incLoop.Post != nil:
+				why = "the increment of " + a + " is not the whole body of a plain `for cond { " + a + "++ }` loop"
+			case incLoop.End() > blk.Pos():
+				why = "the counting loop does not precede the drop"
+			default:
+				tested := false
+				for _, cj := range flattenAnd(incLoop.Cond) {
+					if isEmptyTest(cj, a) {
+						tested = true
+					}
+				}
+				if !tested {
+					why = "the counting loop advances " + a + " without testing slot ACT[" + a + "] for 0"
 				}
 			}
 		}
-		r.Check(chkOK && offOK, clause, "R3 LOCKSTEP", f.Name+"/trim-moves-payload-check-offsets-together", c.pos(fs.Pos()),
-			fmt.Sprintf("each trim step drops %d slot(s) of the payload and of the check vector and lowers every row offset by the same amount, unconditionally in the same iteration", step),
-			fmt.Sprintf("the trim step re-slices the payload by %d but does not do the same to the check vector (%v) and to every row offset (%v) in the same iteration: packed lookups would read shifted slots", step, chkOK, offOK))
-		return true
-	})
-	if !found {
-		r.OK(clause, "R3 LOCKSTEP", f.Name+"/trim-moves-payload-check-offsets-together", c.pos(f.Decl.Pos()), "no trim loop re-slices the payload: nothing to keep in lockstep")
+		r.Check(why == "", clause, "R3 LOCKSTEP", f.Name+"/dropped-slots-were-tested-empty", c.pos(m.pos),
+			fmt.Sprintf("each of the %s dropped leading slot(s) was compared with 0 by the guarding loop condition", a),
+			"a leading slot can be dropped although it holds an entry: "+why)
+	}
+	if len(order) == 0 {
+		r.OK(clause, "R3 LOCKSTEP", f.Name+"/trim-moves-payload-check-offsets-together", c.pos(f.Decl.Pos()), "nothing re-slices the payload or the check vector and nothing shifts the offsets: nothing to keep in lockstep")
 	}
 }
 
